@@ -254,6 +254,15 @@ func verifC19Two(nBackends int) {
 	ta, tb := verifTagBytes(1), verifTagBytes(1)
 	lineA := []byte{'_', 'e', '{', '1', ',', '1', '}', ':', ta[0], '|', 'x'}
 	lineB := []byte{'_', 'e', '{', '1', ',', '1', '}', ':', tb[0], '|', 'y'}
+	// wire tags (0 or 3 per event): an event held back while the next one is lexed keeps its own
+	wireA, wireB := []string{"a:1", "b:2", "c:3"}, []string{"d:4", "e:5", "f:6"}
+	if nondetBool() {
+		lineA = append(lineA, []byte("|#a:1,b:2,c:3")...)
+		lineB = append(lineB, []byte("|#d:4,e:5,f:6")...)
+		verifReach("wire-tags")
+	} else {
+		wireA, wireB = nil, nil
+	}
 	ctx := context.Background()
 	l := &lexer.Lexer{MetricPool: mp}
 	ipA, ipB := gostatsd.Source("10.0.0.1"), gostatsd.Source("10.0.0.1")
@@ -329,9 +338,11 @@ func verifC19Two(nBackends int) {
 			case e.Text == "x":
 				na++
 				verifAssert(e.Title == string(ta) && e.Source == wantSrc(ipA), "the first event keeps its title and gets its own sender's source")
+				verifAssert(verifHasAll(e.Tags, wireA) && verifHasNone(e.Tags, wireB), "the first event keeps its own tags and gets none of the second event's")
 			case e.Text == "y":
 				nb++
 				verifAssert(e.Title == string(tb) && e.Source == wantSrc(ipB), "the second event keeps its title and gets its own sender's source")
+				verifAssert(verifHasAll(e.Tags, wireB) && verifHasNone(e.Tags, wireA), "the second event keeps its own tags and gets none of the first event's")
 			}
 		}
 		verifAssert(na == 1 && nb == 1, "no event is delivered twice or swapped for the other")
@@ -343,3 +354,29 @@ func VerifC19_Two1() { verifC19Two(1) }
 func VerifC19_Two2() { verifC19Two(2) }
 
 func VerifC19_Two3() { verifC19Two(3) }
+
+func verifHasAll(tags gostatsd.Tags, want []string) bool {
+	for _, w := range want {
+		n := 0
+		for _, t := range tags {
+			if t == w {
+				n++
+			}
+		}
+		if n != 1 {
+			return false
+		}
+	}
+	return true
+}
+
+func verifHasNone(tags gostatsd.Tags, others []string) bool {
+	for _, w := range others {
+		for _, t := range tags {
+			if t == w {
+				return false
+			}
+		}
+	}
+	return true
+}
